@@ -1,5 +1,5 @@
 (** non-vacuity for C08: concrete runs meeting the hypotheses of the theorems of Properties/C08.v *)
-From Coq Require Import List NArith ZArith Bool.
+From Coq Require Import List NArith ZArith Bool String.
 From ApiFu Require Import Ws.WsTypes Ws.WsSpec Ws.WsModel Ws.WsProofs Ws.WsTheorems Ws.WsActors Ws.WsActorsProofs Ws.WsSys Ws.WsSysProofs.
 Import ListNotations.
 Open Scope list_scope.
@@ -117,3 +117,17 @@ Proof.
   split; [reflexivity|]. split; [vm_compute; reflexivity|].
   eexists. split; [vm_compute; reflexivity|]. split; [repeat constructor|]. vm_compute. intuition.
 Qed.
+
+(** the oracle for the going-down part of a conversation: a query dispatched after terminate, executed
+    with its context cancelled (errors only) and whose complete was lost, is not a violation there,
+    though it would be one on a connection that stays open; an operation executed behind an init the
+    application refused is a violation in both *)
+Example going_down_oracle :
+  let cut := [VRecv (Msg TInit 0 PayNone); VInit true; VSend SAck None; VSend SKa None;
+              VRecv (Msg TTerminate 0 PayNone);
+              VRecv (Msg TStart 1 (PayDoc DQuery)); VStart 2 1 DQuery; VExec 2; VSend (SData 1 CErr) (Some 2)] in
+  let behind_refused := [VRecv (Msg TInit 0 PayReject); VInit false; VSend SConnError None;
+                         VRecv (Msg TStart 1 (PayDoc DQuery)); VStart 1 1 DQuery; VExec 1] in
+  spec_verdict PWs cut = Some "operation-lifecycle"%string /\ spec_verdict_from 5 PWs cut = None /\
+  spec_verdict_from 3 PWs behind_refused = Some "operation-before-init"%string.
+Proof. vm_compute. auto. Qed.
